@@ -39,10 +39,47 @@ func (ft *funcTrans) calleeContract(com *ssa.CallCommon) *Contract {
 		}
 		return nil
 	}
+	// call through a func-typed struct field: contract keyed "funcfield:<pkgpath>.<Struct>.<Field>"
+	if key := funcFieldKey(com.Value); key != "" {
+		return ft.p.Contracts[key]
+	}
+	// call of a value of a named func type: contract keyed "functype:<pkgpath>.<Type>"
+	if nt, ok := com.Value.Type().(*types.Named); ok {
+		if _, isSig := nt.Underlying().(*types.Signature); isSig && nt.Obj().Pkg() != nil {
+			return ft.p.Contracts["functype:"+nt.Obj().Pkg().Path()+"."+nt.Obj().Name()]
+		}
+	}
 	return nil
 }
 
+func funcFieldKey(v ssa.Value) string {
+	u, ok := v.(*ssa.UnOp)
+	if !ok {
+		return ""
+	}
+	fa, ok := u.X.(*ssa.FieldAddr)
+	if !ok {
+		return ""
+	}
+	pt, ok := fa.X.Type().Underlying().(*types.Pointer)
+	if !ok {
+		return ""
+	}
+	nt, ok := pt.Elem().(*types.Named)
+	if !ok || nt.Obj().Pkg() == nil {
+		return ""
+	}
+	st, ok := nt.Underlying().(*types.Struct)
+	if !ok {
+		return ""
+	}
+	return "funcfield:" + nt.Obj().Pkg().Path() + "." + nt.Obj().Name() + "." + st.Field(fa.Field).Name()
+}
+
 func calleeName(com *ssa.CallCommon) string {
+	if k := funcFieldKey(com.Value); k != "" && com.StaticCallee() == nil && !com.IsInvoke() {
+		return k
+	}
 	if com.IsInvoke() {
 		return "(" + types.TypeString(com.Value.Type(), nil) + ")." + com.Method.Name()
 	}
@@ -134,6 +171,8 @@ func (ft *funcTrans) call(in ssa.CallInstruction, val *ssa.Call) {
 		pkg = callee.Object().Pkg()
 	} else if com.IsInvoke() {
 		pkg = com.Method.Pkg()
+	} else {
+		pkg = ft.pkgTypes()
 	}
 	bind := func(name string, t Term, formal types.Type) {
 		if formal != nil && (t.Sort.Kind == KUntypedInt || t.Sort.Kind == KUntypedNil) {
@@ -141,6 +180,7 @@ func (ft *funcTrans) call(in ssa.CallInstruction, val *ssa.Call) {
 		}
 		if name != "" && name != "_" {
 			env[name] = t
+			env[name+"0"] = t
 		}
 		env[fmt.Sprintf("arg%d", idx)] = t
 		idx++
@@ -165,7 +205,7 @@ func (ft *funcTrans) call(in ssa.CallInstruction, val *ssa.Call) {
 		o := ft.obligation("requires", fmt.Sprintf("call%d.%s.requires%d", ft.nCalls, shortName(name), i+1), r.Src, t.S)
 		o.Where = posStr(ft.p.SSA.Fset, in.Pos())
 	}
-	if ft.c != nil && ft.c.NoPanic && !c.NoPanic && !c.Trusted {
+	if ft.c != nil && ft.c.NoPanic && !c.NoPanic && !c.Trusted && !strings.HasPrefix(c.Key, "funcfield:") && !strings.HasPrefix(c.Key, "functype:") {
 		o := ft.obligation("nopanic", fmt.Sprintf("call%d.%s.nopanic", ft.nCalls, shortName(name)), "callee must be nopanic", "false")
 		o.Where = posStr(ft.p.SSA.Fset, in.Pos())
 	}
